@@ -99,7 +99,7 @@ structure Clean (s : Seg) (l : List Nat) : Prop where
 /-- where the `is` register may point: nowhere, into the stream, or at the deleted former first slot -/
 def IsOK (s : Seg) (l : List Nat) (is : Option Nat) : Prop :=
   is = none ∨ (∃ i, is = some i ∧ i ∈ l) ∨
-  (∃ d, is = some d ∧ d ∉ l ∧ (s.get d).deleted = true ∧ (s.get d).next = l.head? ∧ (s.get d).prev = none)
+  (∃ d, is = some d ∧ d ∉ l ∧ (s.get d).deleted = true ∧ (s.get d).next = l.head? ∧ (s.get d).prev = none ∧ (s.get d).copied = false)
 
 /-- `s'` agrees with `s` on everything the stream invariant reads -/
 structure StreamSame (s s' : Seg) : Prop where
@@ -133,10 +133,10 @@ theorem Clean.same {s s' : Seg} {l : List Nat} (hs : StreamSame s s') (h : Clean
    by rw [hs.numGlyphs]; exact h.count⟩
 
 theorem IsOK.same {s s' : Seg} {l : List Nat} {is : Option Nat} (hs : StreamSame s s') (h : IsOK s l is) : IsOK s' l is := by
-  rcases h with h | h | ⟨d, h1, h2, h3, h4, h5⟩
+  rcases h with h | h | ⟨d, h1, h2, h3, h4, h5, h6⟩
   · exact .inl h
   · exact .inr (.inl h)
-  · exact .inr (.inr ⟨d, h1, h2, by rw [(hs.slot d).2.2.1]; exact h3, by rw [(hs.slot d).1]; exact h4, by rw [(hs.slot d).2.1]; exact h5⟩)
+  · exact .inr (.inr ⟨d, h1, h2, by rw [(hs.slot d).2.2.1]; exact h3, by rw [(hs.slot d).1]; exact h4, by rw [(hs.slot d).2.1]; exact h5, by rw [(hs.slot d).2.2.2]; exact h6⟩)
 
 theorem deleted_inb {s : Seg} {d : Nat} (h : (s.get d).deleted = true) : d < s.slots.size := by
   apply Classical.byContradiction
@@ -181,11 +181,11 @@ theorem newSlot_spec {s s' : Seg} {l : List Nat} {g k : Nat} {is : Option Nat}
     refine ⟨⟨hl.nodup, fun j hj => by simpa using hl.inb j hj, hl.first, hl.last, ?_⟩, ?_, hout, by simpa using hin,
       (List.nodup_cons.mp hnd).1, by rw [gi]; exact hfc.1, by rw [gi]; exact hfc.2.1, by rw [gi]; exact hfc.2.2, ?_⟩
     · exact chain_congr (fun j hj => by rw [gk j (fun hh => hout (hh ▸ hj))]; exact ⟨rfl, rfl⟩) hl.chain
-    · rcases hi with h | h | ⟨d, h1, h2, h3, h4, h5⟩
+    · rcases hi with h | h | ⟨d, h1, h2, h3, h4, h5, h6⟩
       · exact .inl h
       · exact .inr (.inl h)
       · have hdi : d ≠ i := fun hh => by rw [hh] at h3; rw [hfc.2.1] at h3; cases h3
-        exact .inr (.inr ⟨d, h1, h2, by rw [gk d hdi]; exact h3, by rw [gk d hdi]; exact h4, by rw [gk d hdi]; exact h5⟩)
+        exact .inr (.inr ⟨d, h1, h2, by rw [gk d hdi]; exact h3, by rw [gk d hdi]; exact h4, by rw [gk d hdi]; exact h5, by rw [gk d hdi]; exact h6⟩)
     · refine ⟨fun j hj => by rw [gk j (fun hh => hout (hh ▸ hj))]; exact hc.live j hj, (List.nodup_cons.mp hnd).2,
         fun f hf => by simpa using hc.freeInb f (by rw [hfree]; exact List.mem_cons_of_mem _ hf),
         fun f hf => hc.freeOut f (by rw [hfree]; exact List.mem_cons_of_mem _ hf),
@@ -202,10 +202,10 @@ theorem newSlot_spec {s s' : Seg} {l : List Nat} {g k : Nat} {is : Option Nat}
       have gg := get_grow' s (max s.bufSize 1) 
       refine ⟨⟨hl.nodup, fun j hj => by simp; have := hl.inb j hj; omega, hl.first, hl.last, ?_⟩, ?_, ?_, ?_, ?_, ?_, ?_, ?_, ?_⟩
       · exact chain_congr (fun j _ => by rw [gg]; exact ⟨rfl, rfl⟩) hl.chain
-      · rcases hi with h | h | ⟨d, h1, h2, h3, h4, h5⟩
+      · rcases hi with h | h | ⟨d, h1, h2, h3, h4, h5, h6⟩
         · exact .inl h
         · exact .inr (.inl h)
-        · exact .inr (.inr ⟨d, h1, h2, by rw [gg]; exact h3, by rw [gg]; exact h4, by rw [gg]; exact h5⟩)
+        · exact .inr (.inr ⟨d, h1, h2, by rw [gg]; exact h3, by rw [gg]; exact h4, by rw [gg]; exact h5, by rw [gg]; exact h6⟩)
       · intro hk; have := hl.inb _ hk; omega
       · simp; omega
       · simp; intro x _ ; omega
